@@ -36,3 +36,21 @@ package resources
 //@   loop 2
 //@     invariant bad == 0 && t != nil && t.m != nil && (forall k in t.m :: t.m[k] == x)
 //@ end
+
+//@ func zzPrivMap
+//@   props C19
+//@   nopanic off
+//@   modifies *
+//@   ensures [mustfailPrivMap] result == 0
+//@   loop 1
+//@     invariant true
+//@ end
+
+//@ func zzPrivCell
+//@   props C19
+//@   nopanic off
+//@   modifies *
+//@   ensures [mustfailPrivCell] result == 0
+//@   loop 1
+//@     invariant true
+//@ end
